@@ -8,6 +8,7 @@ import (
 	"flag"
 	"fmt"
 	"os"
+	"os/exec"
 	"path/filepath"
 	"sort"
 	"strconv"
@@ -15,13 +16,23 @@ import (
 	"time"
 )
 
+type ReplaySpec struct {
+	Name  string   `json:"name"`
+	Pkg   string   `json:"pkg"`
+	Test  string   `json:"test"`
+	Files []string `json:"files"`
+	Gocb  bool     `json:"gocb"` // needs the scriptable gocbcore hooks
+	What  string   `json:"what"`
+}
+
 type PropConfig struct {
-	Pkgs        []string `json:"pkgs"`
-	Lemmas      []string `json:"lemmas"`
-	Frames      []string `json:"frames"`
-	Bounded     []string `json:"bounded"`
-	NotDecided  []string `json:"not_decided"`
-	Assumptions []string `json:"assumptions"`
+	Replays     []ReplaySpec `json:"replays"`
+	Pkgs        []string     `json:"pkgs"`
+	Lemmas      []string     `json:"lemmas"`
+	Frames      []string     `json:"frames"`
+	Bounded     []string     `json:"bounded"`
+	NotDecided  []string     `json:"not_decided"`
+	Assumptions []string     `json:"assumptions"`
 }
 
 type KnownFinding struct {
@@ -243,6 +254,24 @@ func cmdCheck(args []string) {
 			samples = append(samples, map[string]interface{}{"obligation": o.Name, "result": o.Status, "backend": o.Backend, "ms": o.Ms, "instances": len(o.Instances)})
 		}
 	}
+	// When something failed or could not be decided, the registered replays of this
+	// property are run against the real code: a failing replay is a violation with a
+	// concrete failing scenario.
+	replaysRun, replaysFailed := 0, 0
+	if violations > 0 || len(undecided) > 0 {
+		for _, rp := range cfg.Replays {
+			replaysRun++
+			out, failed := runReplay(*verif, *repo, rp)
+			if failed {
+				replaysFailed++
+				violations++
+				os.MkdirAll(replayDir, 0o755)
+				file := filepath.Join(replayDir, "replay."+sanitize(rp.Name)+".json")
+				writeJSON(file, map[string]interface{}{"property": *prop, "replay": rp, "replayed": true, "failing_input": rp.What, "observed": truncate(out, 8000)})
+				fmt.Printf("VIOLATION property=%s replay=%s scenario=%s (real code run: test %s fails)\n", *prop, file, rp.Name, rp.Test)
+			}
+		}
+	}
 	for _, l := range knownLines {
 		fmt.Println(l)
 	}
@@ -275,6 +304,8 @@ func cmdCheck(args []string) {
 			"known_finding_obligations": knownObls,
 			"undecided":                 undecided,
 			"solver_time_ms":            solverMs,
+			"replays_run":               replaysRun,
+			"replays_failed":            replaysFailed,
 			"load_s":                    loadS,
 			"solve_wall_s":              solveS,
 			"integers":                  "mathematical Int with exact wrap-around encoding for + - and constant multiplications, range assumptions on every input/load; symbolic*symbolic products carry a nowrap obligation",
@@ -372,4 +403,19 @@ func writeJSON(path string, v interface{}) {
 func fatal(f string, a ...interface{}) {
 	fmt.Fprintf(os.Stderr, f+"\n", a...)
 	os.Exit(2)
+}
+
+// runReplay runs one registered in-package replay test against the real code.
+func runReplay(verif, repo string, rp ReplaySpec) (string, bool) {
+	script := "run_inpkg.sh"
+	if rp.Gocb {
+		script = "run_gocb.sh"
+	}
+	args := []string{filepath.Join(verif, "replay", script), repo, rp.Pkg, rp.Test}
+	for _, f := range rp.Files {
+		args = append(args, filepath.Join(verif, f))
+	}
+	cmd := exec.Command(args[0], args[1:]...)
+	out, err := cmd.CombinedOutput()
+	return string(out), err != nil && strings.Contains(string(out), "FAIL")
 }
